@@ -12,9 +12,6 @@ RULE = ("for valid SPEC-generated exchanges (Valve: info / players / rules units
 ASSUMPTIONS = ["timeouts are scripted deliveries (silence); real socket timeouts are C12's subject"]
 TRUSTED = ["hand-written Lean model of utils.rs retry_on_timeout and of the protocols' use of it, checked against the code on every run"]
 
-KIND = {0: "54", 1: "55", 2: "56"}
-
-
 def vectors(r):
     out = []
     for n in range(1, r + 3):
@@ -29,41 +26,6 @@ def vectors(r):
                 continue  # all-timeout vectors must cover every attempt
             out.append("".join(v))
     return out
-
-
-def build(valid, unit, v, r, new_id):
-    fam = netprops.FAMILIES[valid.fam]
-    c = valid.case()
-    seg = valid.seg()
-    ch = [int(x) for x in valid.tags["CH"].split(",")]
-    ds = c.script[0] if c.script else []
-    starts = [0, seg[0], seg[0] + seg[1]]
-    groups = [ds[starts[k]:starts[k] + seg[k]] for k in range(3)]
-    newds, faults = [], []
-    for k in range(3):
-        if k != unit:
-            newds += groups[k]
-            faults += [False] * (1 + ch[k])
-            continue
-        for e in v:
-            if e == "S":
-                newds.append(None)
-                faults.append(False)
-            elif e == "F":
-                faults.append(True)
-            elif e == "M":
-                newds.append(b"\xff\xff")
-                faults.append(False)
-            else:
-                newds += groups[k]
-                faults += [False] * (1 + ch[k])
-    c.script = [newds]
-    c.args[fam["retries"]] = str(r)
-    g = list(c.args[fam["gather"]])
-    g[0] = g[1] = "e"
-    c.args[fam["gather"]] = "".join(g)
-    c.opts = [o for o in c.opts if not o.startswith("f=")] + ["f=" + "".join("1" if f else "0" for f in faults)]
-    return c.line(new_id)
 
 
 def expectation(v, r):
@@ -81,34 +43,37 @@ def run(rep, tier, seed, replay=None):
         vlib.correspond(rep, replay, oracle=netprops.crash_oracle, trivial=netprops.trivial, tag="c10")
         return
     rnd = random.Random(seed)
-    valids = [v for v in netprops.valid_cases("valve", seed + 77, 400 if tier == "quick" else 4000)
-              if v.want.startswith("OK") and " P+" in v.want and " R+" in v.want and not v.notwf]
-    nbase = 6 if tier == "quick" else 80
-    bases = valids[:nbase]
+    import importlib
     cases, meta = [], {}
-    for bi, b in enumerate(bases):
-        for r in range(4):
-            vs = vectors(r)
-            if tier == "quick":
-                keep = [v for v in vs if "M" not in v]
-                vs = keep + rnd.sample([v for v in vs if "M" in v], min(12, len([v for v in vs if "M" in v])))
-            for unit in range(3):
-                for v in vs:
-                    cid = f"{b.id}u{unit}r{r}{v}"
-                    cases.append(build(b, unit, v, r, cid))
-                    meta[cid] = (b, unit, v, r)
+    units_desc = []
+    for fam in netprops.FAMILIES:
+        fmod = importlib.import_module("props.families." + fam)
+        if not hasattr(fmod, "c10_build"):
+            continue
+        valids = [v for v in netprops.valid_cases(fam, seed + 77, 400 if tier == "quick" else 4000) if fmod.c10_eligible(v)]
+        nbase = 6 if tier == "quick" else 80
+        bases = valids[:nbase]
+        units_desc.append(f"{fam}: units {fmod.c10_units(bases[0]) if bases else []}")
+        for bi, b in enumerate(bases):
+            for r in range(4):
+                vs = vectors(r)
+                if tier == "quick":
+                    keep = [v for v in vs if "M" not in v]
+                    vs = keep + rnd.sample([v for v in vs if "M" in v], min(12, len([v for v in vs if "M" in v])))
+                for unit in fmod.c10_units(b):
+                    for v in vs:
+                        cid = f"{b.id}u{unit}r{r}{v}"
+                        cases.append(fmod.c10_build(b, unit, v, r, cid))
+                        meta[cid] = (b, unit, v, r, fmod)
 
     def oracle(case, impl, model, panic):
         out = netprops.crash_oracle(case, impl, model, panic)
         cid = case.split(" ", 1)[0]
         if cid not in meta or out:
             return out
-        b, unit, v, r = meta[cid]
+        b, unit, v, r, fmod = meta[cid]
         want_attempts, want_res = expectation(v, r)
-        ch = [int(x) for x in b.tags["CH"].split(",")]
-        # sends of this unit's kind on the wire; a valid attempt also answers each challenge once
-        kind_sends = sum(1 for (_, _, data, _) in vlib.sends_of(impl) if data[8:10] == KIND[unit])
-        attempts = kind_sends - (ch[unit] if want_res == "CLEAN" else 0)
+        attempts = fmod.c10_attempts(b, unit, vlib.sends_of(impl), want_res == "CLEAN")
         got = vlib.result_of(impl)
         rep.count(f"vector-class:{want_res.split(' ')[0]}")
         if attempts != want_attempts:
@@ -124,4 +89,4 @@ def run(rep, tier, seed, replay=None):
         return out
 
     vlib.correspond(rep, netprops.corpus("C10") + cases, oracle=oracle, trivial=netprops.trivial, tag="c10")
-    rep.extra_cov["units"] = "valve: info, players, rules"
+    rep.extra_cov["units"] = units_desc
